@@ -387,7 +387,7 @@ def hexpand (s : St) : HEv → List Act
   | .close t => [.extClose t]
   | .idle d => [.tick d]
 
-/-- a history is run event by event; `none` as soon as the model does not admit an event -/
+/-- a history is run event by event; `none` as soon as the model refuses an event -/
 def runHist : List HEv → St → Option St
   | [], s => some s
   | e :: es, s => (run cfg bytesOf (hexpand bytesOf s e) s).bind (runHist es)
